@@ -3,6 +3,7 @@ package c18
 import (
 	"regexp"
 	"sort"
+	"strconv"
 	"strings"
 )
 
@@ -47,13 +48,13 @@ var opTable = map[string]opInfo{
 	"r2o": {args: "r out", out: 1}, "r2owa": {args: "r out", out: 1}, "r2owaa": {args: "r out", out: 1},
 
 	"j": {args: "loc"}, "jcmpl": {args: "loc"}, "jc": {args: "rom"},
-	"saj":   {args: "loc", modes: "hy"}, // toggles exec_mode, declared in hy only
-	"ja":    {args: "loc", modes: "vn hy"}, "jcmpa": {args: "loc", modes: "vn hy"},
-	"jo":    {args: "loc", modes: "ha hy"}, "jcmpo": {args: "loc", modes: "ha hy"},
-	"jz":    {args: "r rom"}, "jgt0f": {args: "r rom"}, "ro2r": {args: "r rom"},
-	"m2r":   {args: "r ram", ram: true}, "r2m": {args: "r ram", ram: true},
-	"rset":  {args: "r imm"},
-	"tsp":   {args: "r loc nice", thr: true, modes: "ha"}, // threads are generated for ha only (conproc.go:146-211)
+	"saj": {args: "loc", modes: "hy"}, // toggles exec_mode, declared in hy only
+	"ja":  {args: "loc", modes: "vn hy"}, "jcmpa": {args: "loc", modes: "vn hy"},
+	"jo": {args: "loc", modes: "ha hy"}, "jcmpo": {args: "loc", modes: "ha hy"},
+	"jz": {args: "r rom"}, "jgt0f": {args: "r rom"}, "ro2r": {args: "r rom"},
+	"m2r": {args: "r ram", ram: true}, "r2m": {args: "r ram", ram: true},
+	"rset": {args: "r imm"},
+	"tsp":  {args: "r loc nice", thr: true, modes: "ha"}, // threads are generated for ha only (conproc.go:146-211)
 
 	"wrd": {args: "r so", so: "channel"}, "wwr": {args: "r so", so: "channel"}, "chc": {args: rr, so: "channel"}, "chw": {args: r1, so: "channel"},
 	"hit":     {args: r1, so: "barrier"},
@@ -71,7 +72,7 @@ var famTable = map[string]opInfo{
 	"rsets": {args: "r imm"},
 	"callo": {args: "rom", modes: "ha hy"}, "calla": {args: "ram", modes: "vn hy"}, "ret": {},
 	"push": {args: r1}, "pull": {args: r1},
-	"fps":  {args: rr}, "fxps": {args: rr}, "lqs": {args: rr}, "flpe": {args: rr},
+	"fps": {args: rr}, "fxps": {args: rr}, "lqs": {args: rr}, "flpe": {args: rr},
 }
 
 var famRes = []struct {
@@ -206,6 +207,20 @@ func shape(c Case) []string {
 		for k := range has {
 			if !usesSO[k] {
 				dev["so-without-opcode"] = true
+			}
+		}
+	}
+	// the program-driven front ends bond every processor input they create (an input exists because
+	// the program reads it and an attach statement names its source)
+	bonded := map[string]bool{}
+	for _, b := range c.Bonds {
+		bonded[b[0]] = true
+		bonded[b[1]] = true
+	}
+	for pi, p := range c.Procs {
+		for k := 0; k < p.N; k++ {
+			if !bonded["p"+strconv.Itoa(pi)+"i"+strconv.Itoa(k)] {
+				dev["unbonded-processor-input"] = true
 			}
 		}
 	}
